@@ -280,6 +280,7 @@ impl Script {
             "seed": self.seed, "run": self.run,
             "start": {"utc_secs": self.start_secs, "nanos": self.start_nanos, "offset_secs": self.start_offset},
             "events": events,
+            "env": simcore::envswarm::installed_json(),
         })
     }
 
